@@ -203,9 +203,12 @@ func initProperties() {
 				use("WALKADVANCE", "descriptor advances per path step", protoGeneric),
 				use("NEXTGUARD", "one element read per HasNext", protoGeneric),
 				use("KTETROLE", "key/element types not mixed up", protoGeneric),
+				use("MSGNARROW", "repeated/map walkers cannot leave the embedded message", protoGeneric),
 				use("REWIND", "cursor re-positioned before SkipAllElements", protoGeneric),
+				use("MSGNARROW", "repeated/map walkers cannot leave the embedded message", anyOf(protoGeneric, protoBinary)),
 				use("UNUSEDBOUND", "message-length bounds are used by the scanners", anyOf(protoGeneric, protoBinary)),
 				use("UNSIGNEDWIDEN", "unsigned 32-bit kinds are not sign-extended", nil),
+				use("MSGNARROW", "repeated/map walkers cannot leave the embedded message", protoBinary),
 				use("PACKEDKIND", "packed payloads are walked by the element kind", nil),
 				use("LENZERO", "empty length-delimited payloads are accepted", anyOf(protoGeneric, protoBinary)),
 				use("ERRASSERT", "no unchecked error type assertion can panic", protoGeneric),
@@ -218,6 +221,7 @@ func initProperties() {
 				use("JSONPAIR", "balanced JSON", inPkgs("conv/p2j")),
 				use("MAPKEYQUOTE", "map keys quoted", nil),
 				use("UNSIGNEDWIDEN", "unsigned 32-bit kinds are not sign-extended", inPkgs("conv/p2j", "proto/binary")),
+				use("MSGNARROW", "repeated/map walkers cannot leave the embedded message", inPkgs("conv/p2j")),
 				use("SIGNCONV", "unsigned exact", nil),
 				use("KINDEXH", "all kinds", inPkgs("conv/p2j")),
 				use("LOOPPROGRESS", "loops consume", inPkgs("conv/p2j")),
@@ -263,6 +267,7 @@ func initProperties() {
 				use("NOTFOUNDPOS", "a missing element is inserted into the searched container", protoGeneric),
 				use("LENZERO", "empty length-delimited payloads are accepted", protoGeneric),
 				use("KTETROLE", "key/element types not mixed up", protoGeneric),
+				use("MSGNARROW", "repeated/map walkers cannot leave the embedded message", protoGeneric),
 				use("WALKADVANCE", "descriptor advances per path step", protoGeneric),
 				use("SPECLENPAIR", "lengths finished", protoGeneric),
 				use("NILLOOKUP", "lookups checked", func(o *Obl) bool { return protoGeneric(o) && mutators(o) }),
@@ -326,6 +331,7 @@ func initProperties() {
 				use("DROPERR", "parse errors propagate", inPkgs("thrift", "internal/util", "internal/caching")),
 				use("PARAMMAPWRITE", "parse entry points do not store into the caller's includes map", inPkgs("thrift")),
 				use("INDEXLOWER", "lookups by id reject negative ids instead of indexing with them", inPkgs("thrift", "internal/util")),
+				use("REFLOCAL", "same-file references (service inheritance) are resolved", inPkgs("thrift")),
 			)},
 		{ID: "C15", Title: "Protobuf descriptors mirror the schema",
 			Decides: "the compiling cache is keyed injectively (CACHEKEY: message types sharing a simple name get distinct descriptors), kind/wire/packedness tables match the spec (KINDTABLE), name maps are built (BUILDPAIR).",
@@ -336,6 +342,7 @@ func initProperties() {
 				use("BUILDPAIR", "maps built", inPkgs("proto", "internal/util")),
 				use("PARAMMAPWRITE", "parse entry points do not store into the caller's includes map", inPkgs("proto")),
 				use("INDEXLOWER", "lookups by number reject negative numbers instead of indexing with them", inPkgs("proto", "internal/util")),
+				use("ATTRCOVER", "every schema attribute the property names is read by the parser", nil),
 			)},
 		{ID: "C16", Title: "Requiredness, defaults and unknown-field options behave as documented", QuickP: true,
 			Decides: "each write/disallow option reaches its own flag bit with the documented polarity (FLAGSYNC), options reach the matching parameter of HandleRequires/CheckRequires/EncodeText/ReadAnyWithDesc (ARGSWAP), an unknown member is an error exactly when disallowed and is otherwise skipped (NEGPOLARITY, UNKNOWNSKIP), unset fields are written under the same key as present ones (KEYSRC), the descriptor's requires bitmap is only copied, never written (DESCIMMUT).",
@@ -359,6 +366,7 @@ func initProperties() {
 				use("ANNOTABLE", "annotation -> source", nil),
 				use("BMSET", "http-mapped fields are recorded in the requires bitmap", inPkgs("conv/j2t", "conv/t2j")),
 				use("NILGUARDAGREE", "an absent ResponseSetter/RequestGetter never reaches the mapping code", nil),
+				use("DEADSTORE", "no option source is overwritten before it is read", nil),
 				use("FIRSTWINS", "first source wins", nil),
 				use("FLAGSYNC", "HTTPConv enables mapping", nil),
 				use("ARGSWAP", "options in order", inPkgs("conv/j2t", "conv/t2j", "thrift/annotation")),
@@ -415,6 +423,7 @@ func initProperties() {
 			Uses: uses(
 				use("RWPAIR", "reader/writer symmetric", nil),
 				use("UNSIGNEDWIDEN", "unsigned 32-bit kinds are not sign-extended", nil),
+				use("MSGNARROW", "repeated/map walkers cannot leave the embedded message", protoBinary),
 				use("GROWCOPY", "speculative length re-allocation keeps the payload", nil),
 				use("VARINTNARROW", "varint lengths bounded before narrowing", nil),
 				use("POOLRESET", "recycled protocol objects fully reset", protoBinary),
